@@ -141,7 +141,7 @@ def _case(draw, tier):
                         if n.get("name") == w["name"] and n["k"] == "func":
                             n["wait_for"] = list(n.get("wait_for", [])) + [sig]
     mutex = None
-    if depth == 0 and not gates and prob(draw, 0.4):
+    if depth == 0 and not gates and prob(draw, 0.7):
         mutex = {"param": draw(st.sampled_from(sorted({p for n in topo for p in n["params"]} - {o for n in topo for o in n["outs"]}) or ["zz"]))}
     extra = []
     if mutex is not None and mutex["param"] != "zz" and mutex["param"] not in ref.producers(topo):
